@@ -147,6 +147,12 @@ func (m *AppPlacementManager) PlaceApplication(app *objects.Application) error {
 				zap.String("application", app.ApplicationID))
 			break
 		}
+		// the recovery queue is reserved for forced placement: a rule that returns it for any other application
+		// (for instance the provided rule with the recovery queue name as the requested queue) does not match
+		if queueName == common.RecoveryQueueFull {
+			queueName = ""
+			continue
+		}
 		// queueName returned make sure ACL allows access and set the queueName in the app
 		queue := m.queueFn(queueName)
 		// walk up the tree if the queue does not exist
